@@ -75,9 +75,9 @@ def check_condense(A, D, x, b, rng):
     Dn = np.array(D, dtype=np.int64)
     I = np.array([i for i in range(n) if i not in D], dtype=np.int64)
     A0 = A.copy()
-    for form in ("D", "I"):
+    for form in ("D", "I", "I-reversed"):
         try:
-            out = condense(A, b, x=x, D=Dn) if form == "D" else condense(A, b, x=x, I=I)
+            out = condense(A, b, x=x, D=Dn) if form == "D" else condense(A, b, x=x, I=(I if form == "I" else I[::-1].copy()))
         except Exception as e:
             return "condense(%s=...) raised %s: %s" % (form, type(e).__name__, e)
         Ac, bc, xx, II = out
